@@ -4,5 +4,5 @@
 From Coq Require Import Extraction ExtrOcamlBasic.
 From NM Require Import Engine.
 Extraction Language OCaml.
-From NM Require Import EngineSpec Diag.
-Extraction "engine_model.ml" run_pkgs analyze_pkg spec_pkgs diagnostics_tf shown_places.
+From NM Require Import EngineSpec Diag Scope.
+Extraction "engine_model.ml" run_pkgs analyze_pkg spec_pkgs diagnostics_tf shown_places in_scope_flags.
